@@ -75,6 +75,34 @@ func c03Gen(c *core.Ctx) func(yield func(c03Case) bool) {
 		if !ok {
 			return
 		}
+		// optional edges: an optional point into a cycle whose member gets substituted (a failure on
+		// the optional edge must not leave a holder with a version that is later superseded)
+		allGraphs(3, []int{scen.ENone, scen.EName, scen.ENameOpt}, false, func(e [][]int) bool {
+			anyOpt := false
+			for i := range e {
+				for _, k := range e[i] {
+					anyOpt = anyOpt || k == scen.ENameOpt
+				}
+			}
+			if !anyOpt {
+				return true
+			}
+			for node := 0; node < 3; node++ {
+				for plan := 1; plan < scen.NumWrapPlans; plan++ {
+					w := []int{0, 0, 0}
+					w[node] = plan
+					for _, base := range [][]int{{0, 1, 2}, {2, 1, 0}} {
+						if ok = yield(c03Case{scen.GraphProg{N: 3, Edges: e, Wrap: w, Base: base, Family: "n3-optional"}, 0}); !ok {
+							return false
+						}
+					}
+				}
+			}
+			return true
+		})
+		if !ok {
+			return
+		}
 		// programmatic lookups during initialisation: node i looks a lazy node j up inside its Init
 		// (j is created on demand while i is still in creation), one substituted node
 		allGraphs(3, []int{scen.ENone, scen.EName}, false, func(e [][]int) bool {
